@@ -11,7 +11,7 @@ import io
 import env
 import gen
 import refavro
-from streams import ReadOnlySeq, TellingSeq
+from streams import ReadOnlySeq, TellingSeq, buffered_seq
 from runner import Violation
 from props import common
 
@@ -42,7 +42,7 @@ COMPONENTS = {
     "stub": ["ReadOnlySeq (read only)", "TellingSeq (read + tell)"],
     "oracle": ["refavro.parse_container", "refavro.decode", "refavro.value_eq"],
 }
-PROBES = ["cut_in_magic", "cut_in_header_map", "cut_in_header_sync", "cut_in_block_count",
+PROBES = ["input_buffered_reader", "route_lenient_unicode", "route_reader_option", "schemaless_prefix_skipped_tail", "cut_in_magic", "cut_in_header_map", "cut_in_header_sync", "cut_in_block_count",
           "cut_in_block_size", "cut_in_payload", "cut_in_block_sync", "cut_on_boundary",
           "zero_payload_block", "multi_block_file", "foreign_file", "history_file", "c07_history_file", "schemaless_prefix"]
 
@@ -210,11 +210,25 @@ def run_one(ch, ctx):
                   "blocks": [list(b) for b in truth.blocks][:8]}
     ctx.ev("file", fdig, L, src)
 
+    # less common route: lenient unicode handling (no difference on the valid UTF-8 that was written)
+    ropts = {}
+    if ch.chance(25):
+        ropts = {"handle_unicode_errors": ch.pick(["replace", "ignore"])}
+        ctx.probe("route_lenient_unicode")
+        desc = dict(desc, reader_options=ropts)
+    # input stream: the read-only stubs, or a real io.BufferedReader with a tiny buffer for every read of this file
+    bufsize = ch.pick([1, 2, 3, 5, 8, 13, 64, 1000]) if ch.chance(20) else None
+    if bufsize:
+        ctx.probe("input_buffered_reader")
+        desc = dict(desc, input="io.BufferedReader(buffer_size=%d)" % bufsize)
+        ReadOnlySeq = TellingSeq = lambda data, cut=None, flips=(): buffered_seq(data, bufsize, cut=cut, flips=flips)   # noqa
+    else:
+        from streams import ReadOnlySeq, TellingSeq   # noqa
     # fault-free baseline (both readers)
-    Y, exc, stage = common.read_all(lambda: F.reader(ReadOnlySeq(data)))
+    Y, exc, stage = common.read_all(lambda: F.reader(ReadOnlySeq(data), **ropts))
     if exc is not None or not _is_prefix(Y, R) or len(Y) != len(R):
         raise Violation("baseline", "reader-fault-free", detail={"exc": exc, "n": len(Y), "expected": len(R)}, scenario=desc)
-    Yb, meta, exc, stage = common.read_blocks(lambda: F.block_reader(TellingSeq(data)))
+    Yb, meta, exc, stage = common.read_blocks(lambda: F.block_reader(TellingSeq(data), **ropts))
     if exc is not None or not _is_prefix(Yb, R) or len(Yb) != len(R):
         raise Violation("baseline", "block_reader-fault-free", detail={"exc": exc, "n": len(Yb), "expected": len(R)}, scenario=desc)
 
@@ -225,9 +239,9 @@ def run_one(ch, ctx):
         ctx.probe(where)
         for rname in ("reader", "block_reader"):
             if rname == "reader":
-                Y, exc, stage = common.read_all(lambda: F.reader(ReadOnlySeq(data, cut=k)))
+                Y, exc, stage = common.read_all(lambda: F.reader(ReadOnlySeq(data, cut=k), **ropts))
             else:
-                Y, meta, exc, stage = common.read_blocks(lambda: F.block_reader(TellingSeq(data, cut=k)))
+                Y, meta, exc, stage = common.read_blocks(lambda: F.block_reader(TellingSeq(data, cut=k), **ropts))
             nfaults += 1
             ctx.fault("cut")
             ctx.stat("exc_" + (type(exc).__name__ if exc is not None else "none"))
@@ -288,9 +302,9 @@ def run_one(ch, ctx):
             for rname in ("reader", "block_reader"):
                 src_bytes = mutated if mutated is not None else data
                 if rname == "reader":
-                    Y, exc, stage = common.read_all(lambda: F.reader(ReadOnlySeq(src_bytes, flips=flips)))
+                    Y, exc, stage = common.read_all(lambda: F.reader(ReadOnlySeq(src_bytes, flips=flips), **ropts))
                 else:
-                    Y, meta, exc, stage = common.read_blocks(lambda: F.block_reader(TellingSeq(src_bytes, flips=flips)))
+                    Y, meta, exc, stage = common.read_blocks(lambda: F.block_reader(TellingSeq(src_bytes, flips=flips), **ropts))
                 nfaults += 1
                 ctx.fault("sync_" + ("flip" if kind == "flip" else "replace"))
                 ctx.ev("sync", j, kind, arg if kind == "flip" else None, rname, len(Y), type(exc).__name__ if exc else None)
@@ -309,32 +323,54 @@ def run_one(ch, ctx):
 
 
 def run_schemaless(ch, ctx):
-    """Every proper prefix of a fastavro-written schemaless encoding must raise."""
+    """Every proper prefix of a fastavro-written schemaless encoding must raise -- also when the
+    reader's schema drops the trailing fields (they are skipped, not decoded), on seekable and on
+    purely sequential input, and under reader options that do not concern well-formed data."""
     F = common.fa()
     schema, gstats = gen.schema(ch, max_depth=3)
     node = refavro.resolve(schema)
     dg = gen.DataGen(ch, hints=False, max_len=3, big_collections=False)
     d = dg.datum(node)
     fo = io.BytesIO()
-    sch = F.parse_schema(schema) if ch.chance(50) else schema
+    rs = None
+    variant = ch.weighted([6, 4])
+    if variant == 1:
+        # the value sits behind a field the reader keeps and is itself dropped by the reader's schema
+        ctx.probe("schemaless_prefix_skipped_tail")
+        wschema = {"type": "record", "name": "WrapTail", "fields": [{"name": "head", "type": "long"}, {"name": "x", "type": schema}]}
+        rschema = {"type": "record", "name": "WrapTail", "fields": [{"name": "head", "type": "long"}]}
+        d = {"head": 77, "x": d}
+        parsed = ch.chance(50)
+        sch = F.parse_schema(wschema) if parsed else wschema
+        rs = F.parse_schema(rschema) if parsed else rschema
+        schema = wschema
+    else:
+        sch = F.parse_schema(schema) if ch.chance(50) else schema
     F.schemaless_writer(fo, sch, d)
     data = fo.getvalue()
-    desc = {"schema": schema, "datum": common.jsonable(d), "encoding": data.hex()[:400]}
+    opts = {}
+    if ch.chance(35):
+        opts = ch.pick([{"handle_unicode_errors": "replace"}, {"handle_unicode_errors": "ignore"}, {"return_record_name": True},
+                        {"return_named_type": True}])
+        ctx.probe("route_reader_option")
+    seekable = ch.chance(50)
+    desc = {"schema": schema, "datum": common.jsonable(d), "encoding": data.hex()[:400], "reader_drops_tail": rs is not None,
+            "reader_options": opts, "seekable_input": seekable}
     ctx.sample = {"schemaless": desc}
     ctx.probe("schemaless_prefix")
     ctx.ev("schemaless", data.hex())
     n = 0
     for k in range(len(data)):
-        s = ReadOnlySeq(data, cut=k)
+        s = io.BytesIO(data[:k]) if seekable else ReadOnlySeq(data, cut=k)
         try:
-            v = F.schemaless_reader(s, sch)
+            v = F.schemaless_reader(s, sch, rs, **opts)
         except Exception as e:  # noqa
             ctx.stat("exc_" + type(e).__name__)
             n += 1
             ctx.fault("cut_schemaless")
             continue
         raise Violation("schemaless-prefix", "prefix-decoded",
-                        detail={"cut": k, "len": len(data), "returned": v}, scenario=desc)
+                        detail={"cut": k, "len": len(data), "returned": common.jsonable(v)}, scenario=desc)
     ctx.evals += n
     ctx.steps += n
     ctx.keyw(("schemaless", hashlib.blake2b(data, digest_size=8).hexdigest()), n)
